@@ -157,6 +157,10 @@ def run_state(case):
         elif op[0] == "dict":
             check_dict()
             continue
+        elif op[0] == "toggle":
+            # the flag by itself changes nothing: the arrays must still describe the orders of this object
+            (env.enable_trading if op[1] else env.disable_trading)()
+            feat["toggles"] = feat.get("toggles", 0) + 1
         elif op[0] == "step":
             n_tr = len(env.get_trades())
             env.step()
@@ -200,7 +204,7 @@ def run_state(case):
     if fills:
         feat["frames_with_fills"] = 1
     nontrivial = feat["asym"] >= 1
-    return nontrivial, {"array_states": 1, "states_at_the_top_of_the_price_range": int(shift == 1), "states_at_the_bottom_of_the_price_range": int(shift == 2), "end_to_end_frames_with_fills": feat.get("frames_with_fills", 0), "arrays_checked": feat["arrays"], "steps": feat["steps"], "asymmetric_audits": feat["asym"], "asymmetric_audits_with_distinct_nonzero_traded_volume": feat.get("asym_with_trade_vol", 0), "dictionaries_checked": feat["dicts"], "dictionaries_read_before_the_first_step": feat.get("dicts_before_first_step", 0), "numpy_api_cases": int(numpy_api)}
+    return nontrivial, {"array_states": 1, "states_at_the_top_of_the_price_range": int(shift == 1), "states_at_the_bottom_of_the_price_range": int(shift == 2), "end_to_end_frames_with_fills": feat.get("frames_with_fills", 0), "arrays_checked": feat["arrays"], "steps": feat["steps"], "asymmetric_audits": feat["asym"], "asymmetric_audits_with_distinct_nonzero_traded_volume": feat.get("asym_with_trade_vol", 0), "trading_toggles": feat.get("toggles", 0), "dictionaries_checked": feat["dicts"], "dictionaries_read_before_the_first_step": feat.get("dicts_before_first_step", 0), "numpy_api_cases": int(numpy_api)}
 
 
 def state_case_st():
@@ -224,6 +228,7 @@ def state_case_st():
         st.tuples(st.just("step")),
         st.tuples(st.just("step")),
         st.tuples(st.just("dict")),
+        st.tuples(st.just("toggle"), st.booleans()),
     )
     prefix = st.tuples(st.lists(bid, min_size=3, max_size=7), st.lists(ask, min_size=3, max_size=7)).map(lambda t: t[0] + t[1] + [("step",)])
     short = st.tuples(prefix, st.lists(op, min_size=3, max_size=40)).map(lambda t: t[0] + t[1] + [("step",)])
